@@ -57,7 +57,7 @@ private theorem rows_step (st : St) (e : Eff) (hv : violation st e = none)
   | cursorWrite s c => intro row hm; exact mono row (by simpa [effect] using hm)
   | walkWrite s => intro row hm; exact mono row (by simpa [effect] using hm)
   | providerWrite s eng put => intro row hm; exact mono row (by simpa [effect] using hm)
-  | eventApplied s i => intro row hm; exact mono row (by simpa [effect] using hm)
+  | eventApplied s i r => intro row hm; exact mono row (by simpa [effect] using hm)
 
 private theorem cursor_step (st : St) (e : Eff) (hv : violation st e = none) (s : Side)
     (h : (st.side s).CursorOk) : ((effect st e).side s).CursorOk := by
@@ -93,7 +93,7 @@ private theorem cursor_step (st : St) (e : Eff) (hv : violation st e = none) (s 
       simp only [effect, side_setSide]
       exact h
     · simpa [effect, side_setSide_ne _ _ _ _ hs] using h
-  | eventApplied s' j =>
+  | eventApplied s' j r =>
     by_cases hs : s = s'
     · subst hs
       simp only [effect, side_setSide]
@@ -208,7 +208,7 @@ theorem effect_puts_iff (st : St) (e : Eff) (s : Side) (t : Nat) :
     by_cases hs : s = s'
     · subst hs; simp [effect]
     · simp [effect, side_setSide_ne _ _ _ _ hs]
-  | eventApplied s' i =>
+  | eventApplied s' i r =>
     by_cases hs : s = s'
     · subst hs; simp [effect]
     · simp [effect, side_setSide_ne _ _ _ _ hs]
@@ -226,7 +226,7 @@ theorem effect_puts_iff (st : St) (e : Eff) (s : Side) (t : Nat) :
       simp [effect, side_setSide_ne _ _ _ _ hs, this]
 
 theorem effect_handled_iff (st : St) (e : Eff) (s : Side) (i : Nat) :
-    i ∈ ((effect st e).side s).handled ↔ i ∈ (st.side s).handled ∨ e = .eventApplied s i := by
+    i ∈ ((effect st e).side s).handled ↔ i ∈ (st.side s).handled ∨ ∃ r, e = .eventApplied s i r := by
   cases e with
   | rowCreate eid cl cr => cases s <;> simp [effect, St.side]
   | rowUpdate eid cl cr => cases s <;> simp [effect, St.side]
@@ -244,13 +244,14 @@ theorem effect_handled_iff (st : St) (e : Eff) (s : Side) (i : Nat) :
     by_cases hs : s = s'
     · subst hs; simp [effect]
     · simp [effect, side_setSide_ne _ _ _ _ hs]
-  | eventApplied s' j =>
+  | eventApplied s' j r0 =>
     by_cases hs : s = s'
     · subst hs
-      simp only [effect, side_setSide, List.mem_cons, Eff.eventApplied.injEq, true_and, eq_comm (a := j)]
+      simp only [effect, side_setSide, List.mem_cons, Eff.eventApplied.injEq, true_and, eq_comm (a := j),
+        exists_and_left, exists_eq', and_true]
       exact or_comm
-    · have : ¬ (Eff.eventApplied s' j = Eff.eventApplied s i) := by
-        intro h; injection h with h1 _; exact hs h1.symm
+    · have : ∀ r, ¬ (Eff.eventApplied s' j r0 = Eff.eventApplied s i r) := by
+        intro r h; injection h with h1 _ _; exact hs h1.symm
       simp [effect, side_setSide_ne _ _ _ _ hs, this]
 
 /-- the contents ever put on a side are exactly those of the provider writes in the log so far -/
@@ -267,7 +268,7 @@ theorem mem_puts_iff (st0 st : St) (pre : Log) (h : run st0 pre = .ok st) (s : S
     simp only [List.mem_cons, exists_eq_or_imp, or_assoc]
 
 theorem mem_handled_iff (st0 st : St) (pre : Log) (h : run st0 pre = .ok st) (s : Side) (i : Nat) :
-    i ∈ (st.side s).handled ↔ i ∈ (st0.side s).handled ∨ ∃ y ∈ pre, y.e = .eventApplied s i := by
+    i ∈ (st.side s).handled ↔ i ∈ (st0.side s).handled ∨ ∃ y ∈ pre, ∃ r, y.e = .eventApplied s i r := by
   induction pre generalizing st0 with
   | nil => simp [run_nil] at h; subst h; simp
   | cons x xs ih =>
@@ -307,7 +308,7 @@ theorem provider_write_before_commit (log pre post : Log) (x : NEff) (h : check 
 theorem cursor_write_after_events (log pre post : Log) (x : NEff) (h : check log = true)
     (hl : log = pre ++ x :: post) (s : Side) (c : Nat) (hx : x.e = .cursorWrite s c)
     (st : St) (hst : run St.init pre = .ok st) (hw : (st.side s).walked = true) :
-    ∀ i, i ≤ c → i ≤ (st.side s).base ∨ ∃ y ∈ pre, y.e = .eventApplied s i := by
+    ∀ i, i ≤ c → i ≤ (st.side s).base ∨ ∃ y ∈ pre, ∃ r, y.e = .eventApplied s i r := by
   obtain ⟨stf, hf⟩ := (check_iff _).1 h
   subst hl
   obtain ⟨s1, h1, h2⟩ := (run_append_ok_iff _ _ _ _).1 hf
@@ -324,6 +325,22 @@ theorem cursor_write_after_events (log pre post : Log) (x : NEff) (h : check log
   · have := (mem_handled_iff _ _ _ hst s i).1 h1
     right
     simpa [St.init, SideSt.init, St.side] using this
+
+/-- C07 (a'), "committed" means STORED: in an accepted log an event is only ever reported handled-with-row `eid` while row `eid`
+    is in the abstract storage — i.e. it was created at an earlier position and not deleted since -/
+theorem handled_event_has_stored_row (log pre post : Log) (x : NEff) (h : check log = true)
+    (hl : log = pre ++ x :: post) (s : Side) (i eid : Nat) (hx : x.e = .eventApplied s i (some eid))
+    (st : St) (hst : run St.init pre = .ok st) : st.hasRow eid = true := by
+  obtain ⟨stf, hf⟩ := (check_iff _).1 h
+  subst hl
+  obtain ⟨s1, h1, h2⟩ := (run_append_ok_iff _ _ _ _).1 hf
+  rw [hst] at h1
+  injection h1 with h1
+  subst h1
+  obtain ⟨s2, h3, _⟩ := (run_cons_ok_iff _ _ _ _).1 h2
+  obtain ⟨_, hv, _⟩ := (stepN_ok_iff _ _ _).1 h3
+  rw [hx] at hv
+  exact (violation_eventApplied _ _ _ _).1 hv
 
 /-! ## 4. a half-recorded transfer is recognised, not duplicated (manager.py:698-781, 1634-1655) -/
 
@@ -455,7 +472,7 @@ theorem recovered_implies_converged_noLoss (h : List LEv) (o : Bool) (l r : Tree
     to R, the commit — accepted, and consistent at every cut -/
 def sampleLog : Log :=
   [⟨0, .cursorWrite false 0⟩, ⟨1, .walkWrite false⟩, ⟨2, .providerWrite false false (some 1)⟩,
-   ⟨3, .rowCreate 3 none none⟩, ⟨4, .eventApplied false 1⟩, ⟨5, .cursorWrite false 1⟩,
+   ⟨3, .rowCreate 3 none none⟩, ⟨4, .eventApplied false 1 (some 3)⟩, ⟨5, .cursorWrite false 1⟩,
    ⟨6, .providerWrite true true (some 1)⟩, ⟨7, .rowUpdate 3 (some 1) (some 1)⟩]
 
 theorem sample_accepted : check sampleLog = true := by decide
@@ -463,13 +480,24 @@ theorem sample_accepted : check sampleLog = true := by decide
 /-- the same run with the commit BEFORE the provider write is rejected -/
 theorem check_rejects_commit_before_provider_write :
     check [⟨0, .cursorWrite false 0⟩, ⟨1, .walkWrite false⟩, ⟨2, .providerWrite false false (some 1)⟩,
-      ⟨3, .rowCreate 3 none none⟩, ⟨4, .eventApplied false 1⟩, ⟨5, .cursorWrite false 1⟩,
+      ⟨3, .rowCreate 3 none none⟩, ⟨4, .eventApplied false 1 (some 3)⟩, ⟨5, .cursorWrite false 1⟩,
       ⟨6, .rowUpdate 3 (some 1) (some 1)⟩, ⟨7, .providerWrite true true (some 1)⟩] = false := by decide
 
 /-- … and with the cursor saved BEFORE the event it covers is committed -/
 theorem check_rejects_cursor_before_event :
     check [⟨0, .cursorWrite false 0⟩, ⟨1, .walkWrite false⟩, ⟨2, .providerWrite false false (some 1)⟩,
-      ⟨3, .cursorWrite false 1⟩, ⟨4, .rowCreate 3 none none⟩, ⟨5, .eventApplied false 1⟩] = false := by decide
+      ⟨3, .cursorWrite false 1⟩, ⟨4, .rowCreate 3 none none⟩, ⟨5, .eventApplied false 1 (some 3)⟩] = false := by decide
+
+/-- an event reported handled while its entry exists only in memory (no stored row) is rejected: the cursor may not move
+    past it (the shape: id-style provider, new path-less entries whose first storage write is skipped) -/
+theorem check_rejects_handled_without_row :
+    check [⟨0, .cursorWrite false 0⟩, ⟨1, .walkWrite false⟩, ⟨2, .providerWrite false false (some 1)⟩,
+      ⟨3, .eventApplied false 1 (some 3)⟩, ⟨4, .cursorWrite false 1⟩] = false := by decide
+
+/-- … and if the harness (correctly) does not report the event handled, the cursor write is what is rejected -/
+theorem check_rejects_cursor_past_uncommitted_entry :
+    check [⟨0, .cursorWrite false 0⟩, ⟨1, .walkWrite false⟩, ⟨2, .providerWrite false false (some 1)⟩,
+      ⟨3, .cursorWrite false 1⟩] = false := by decide
 
 /-- without the rule the storage left by a crash right after the early commit WOULD claim unreflected work: the state is not
     `Consistent` (so `Consistent` is not vacuous and the rule is what excludes it) -/
@@ -478,7 +506,7 @@ theorem early_commit_state_inconsistent :
 
 /-- before the walk marker is stored a cursor may be ahead (a restart walks again): accepted, and `Consistent` -/
 theorem cursor_before_walk_marker_ok :
-    check [⟨0, .cursorWrite true 5⟩, ⟨1, .rowCreate 1 none none⟩, ⟨2, .walkWrite true⟩, ⟨3, .eventApplied true 6⟩,
+    check [⟨0, .cursorWrite true 5⟩, ⟨1, .rowCreate 1 none none⟩, ⟨2, .walkWrite true⟩, ⟨3, .eventApplied true 6 none⟩,
       ⟨4, .cursorWrite true 6⟩] = true := by decide
 
 /-- non-vacuity of the main theorem's conclusion on the sample: the crash cut after the engine's provider write (k = 7) leaves
